@@ -72,6 +72,11 @@ def generate(rng, tier):
         ok = [cs.op("applyblks k ip %s" % hx(msg))]
         os_ = stream_feed(cs, rng, "apply", "s", msg, byte_pieces(rng, len(msg), bs))
         cs.expect("OFB keystream core = OFB byte stream", lambda r, ok=ok, os_=os_: joined(r, ok) == joined(r, os_))
+        # the core writing raw keystream blocks (over a destination that is not zero, see hb_stream.rs) is the same function
+        cs.op("new k3 ofb_core new %s %s" % (hx(key), hx(iv)))
+        ks = cs.op("ksblocks k3 %d" % nb)
+        cs.expect("OFB core write_keystream_blocks xor message = OFB byte stream",
+                  lambda r, ks=ks, os_=os_, msg=msg: oracle.xor(msg, rbytes(r[ks])) == joined(r, os_))
         CROSS.append((cb.name, oe, cs.name, os_, None, "OFB block encryptor = OFB byte stream"))
         cases += [cb, cs]
     # --- CTR / BelT: core block-wise = wrapper byte-wise ---
